@@ -32,7 +32,8 @@ def elem_ref(eng, term, mesh):
 
 
 def mesh_obj(eng):
-    m = Obj("Mesh", {"__module__": MESH, "version": z3.Int("v0")}, label="mesh")
+    # unknown attributes of the mesh object (e.g. a memo added later) are arbitrary state left by earlier calls
+    m = Obj("Mesh", {"__module__": MESH, "version": z3.Int("v0"), "__lazy_state__": True}, label="mesh")
     eng.attr_hooks[("Mesh", "leaf_elements")] = lambda e, o: leaves_seq(e, o)
     eng.ghost["mesh"] = m
     return m
